@@ -39,6 +39,7 @@ UNIT = Unit(
         Adt(file=M, kw="struct", name="Ctx", rules=["attrs", "pubfields", ("strip", "core::")],
             rewrites=[(re.compile(r"\bIndexMap<"), "AnyMap<", "*")]),
         Raw(path="contracts/mcall.shim.rs"),
+        Raw(path="contracts/box.shim.rs"),
         Raw(text="""impl Ctx {
     #[verifier::external_body]
     pub fn ensure_instance(&mut self, name: &String, s: Subst) -> (r: String)
@@ -48,6 +49,17 @@ UNIT = Unit(
 """),
         Fn(file=M, name="get_ty", container="MonoExpr", ret="r", rewrites=[(re.compile(r"=> ty\.clone\(\),"), "=> clone_of(ty),", "*")],
            contract="ensures r == mono_ty(*self),", obligation="get_ty returns the carried type"),
+        Fn(file=M, name="has_tparam", ret="r", attrs="#[verifier::loop_isolation(false)]", rules=["attrs", "iter_any", "box_as_ref"],
+           obligation="true exactly when a type parameter occurs anywhere in the type (every constructor, incl. Vec / Ref / array / function types)",
+           contract="ensures r == mentions_tparam(*ty),\n        decreases *ty,",
+           ghost=[("@entry", "", "proof { reveal_with_fuel(mentions_tparam, 2); reveal_with_fuel(mt_list, 2); broadcast use lemma_mt_any; }")],
+           loop_fn=lambda k, header, kw: ANY_INV(header)),
+        Fn(file=M, name="fn_is_generic", ret="r", attrs="#[verifier::loop_isolation(false)]", rules=["attrs", ("strip", "core::"), "iter_any"],
+           obligation="a function is treated as generic exactly when it declares generics or its parameter / result types mention a type parameter",
+           rewrites=[("!f.generics.is_empty()", "f.generics.len() > 0")],
+           contract="ensures r == sig_mentions_tparam(*f),",
+           loop_fn=lambda k, header, kw: ("invariant __i0 <= f.params@.len(), !__r0 ==> forall|j: int| 0 <= j < __i0 ==> !mentions_tparam((#[trigger] f.params@[j]).1),\n"
+                                          "  __r0 ==> exists|j: int| 0 <= j < f.params@.len() && mentions_tparam((#[trigger] f.params@[j]).1),\ndecreases f.params@.len() - __i0,")),
         unify_stub,
         Fn(file=M, name="mono_expr", rename="mono_call_generic", ret="r", attrs="#[verifier::loop_isolation(false)]",
            cut_from="let generic_func_name = callee.name.clone();", sig=SIG, cut_before="core::Expr::EToDyn {", cut_tail="",
@@ -75,6 +87,15 @@ UNIT = Unit(
            loop_fn=lambda k, header, kw: LOOPS(k, header)),
     ],
 )
+
+
+def ANY_INV(header):
+    mt = re.search(r"while\s+__i(\d+)\s*<\s*(\w+)\.len\(\)", header)
+    if not mt:
+        return None
+    i, r, c = "__i" + mt.group(1), "__r" + mt.group(1), mt.group(2)
+    return (f"invariant {i} <= {c}@.len(), !{r} ==> !mt_list({c}@, {i} as int),\n"
+            f"  {r} ==> mt_list({c}@, {c}@.len() as int),\ndecreases {c}@.len() - {i},")
 
 
 def LOOPS(k, header):
